@@ -39,6 +39,12 @@ class Conversions(Contract):
         for (s, n, f) in [(True, 8, 4), (False, 8, 2), (True, 24, 12)]:
             for carrier in ('nplist:int32', 'nplist:uint8', 'arr:int16'):
                 yield dict(fmt=[s, n, f], shape=[2], vdtype='float', built_from=carrier)
+        # objects that got their fraction bits through a route that starts from an INTEGER-valued object: like= an integer
+        # reference with n_frac overridden and a raw code; resize(restore_val=False) of an integer-valued object, then a raw store
+        for (s, n, f) in [(True, 8, 2), (False, 8, 1), (True, 8, 9), (False, 4, 3)]:
+            for via in ('like_int_ref', 'resize_norestore', 'template_int_ref'):
+                for shape in ([], [2]):
+                    yield dict(fmt=[s, n, f], shape=shape, vdtype='float', via=via)
         # 2-d arrays in C and in Fortran (column-major / transposed) memory order: every position reads its own code
         for (s, n, f) in [(True, 4, -1), (False, 3, 0), (True, 8, 3), (True, 8, -2)]:
             for shape in ([2, 2], [2, 3]):
@@ -62,6 +68,22 @@ class Conversions(Contract):
             kind, dt = cfg['built_from'].split(':')
             car = [P.npscalar(k, dt) for k in inp['k']] if kind == 'nplist' else P.arr(inp['k'], dtype=dt, shape=(2,))
             x = P.Fxp(car, s, n, f)
+        elif cfg.get('via'):
+            k0 = len(inp['c'])
+            ref = make_fxp(P, s, n, 0, codes=[0] * k0, shape=tuple(cfg['shape']), vdtype=int)
+            raw_in = inp['c'][0] if cfg['shape'] == [] else list(inp['c'])
+            if cfg['via'] == 'like_int_ref':
+                x = P.Fxp(raw_in, like=ref, n_frac=f, raw=True)
+            elif cfg['via'] == 'template_int_ref':
+                P.Fxp.template = ref
+                try:
+                    x = P.Fxp(raw_in, n_frac=f, raw=True)
+                finally:
+                    P.Fxp.template = None
+            else:
+                x = ref
+                x.resize(n_frac=f, restore_val=False)
+                x.set_val(raw_in, raw=True)
         else:
             x = make_fxp(P, s, n, f, codes=inp['c'], shape=tuple(cfg['shape']), vdtype=float if cfg['vdtype'] == 'float' else int, forder=bool(cfg.get('forder')))
         o = {'get_val': x.get_val(), 'as_float': x.astype(float), 'as_int': x.astype(int), 'raw': x.raw(), 'uraw': x.uraw(),
